@@ -171,12 +171,29 @@ theorem classify_int {cfg : CfgVal} {t : Thresholds} (ht : HasThresholds cfg t) 
     classifyKeySize cfg kt.name (.int k) = .ok ((Spec.Crypto.b505 t kt k).map b505Raw) := by
   obtain ⟨h1, h2, h3, h4, h5, h6⟩ := ht
   cases kt <;>
-    simp [classifyKeySize, PyVal.isStr, h1, h2, h3, h4, h5, h6, KeyType.name, pyLtCfg, bind, Except.bind,
+    simp [classifyKeySize, PyVal.isNumber, h1, h2, h3, h4, h5, h6, KeyType.name, pyLtCfg, bind, Except.bind,
       pure, Except.pure, Spec.Crypto.b505, keySeverity, Thresholds.high, Thresholds.medium] <;>
     (split <;> rename_i a <;> simp [a] <;> (split <;> rename_i b <;> simp [b]))
 
 theorem classify_str (cfg : CfgVal) (kt : Str) (s : Str) : classifyKeySize cfg kt (.str s) = .ok none := by
-  simp [classifyKeySize, PyVal.isStr, pure, Except.pure]
+  simp [classifyKeySize, PyVal.isNumber, pure, Except.pure]
+
+/-- anything that is not an int or float literal is left ungraded (no `TypeError` any more) -/
+theorem classify_nonnumber (cfg : CfgVal) (kt : Str) (v : PyVal) (h : v.isNumber = false) :
+    classifyKeySize cfg kt v = .ok none := by
+  simp [classifyKeySize, h, pure, Except.pure]
+
+/-- with well-formed settings `_classify_key_size` never raises, whatever the argument evaluates to -/
+theorem classify_total {cfg : CfgVal} {t : Thresholds} (ht : HasThresholds cfg t) (kt : KeyType) (v : PyVal) :
+    ∃ r, classifyKeySize cfg kt.name v = .ok r := by
+  cases hv : v.isNumber with
+  | false => exact ⟨none, classify_nonnumber cfg _ v hv⟩
+  | true =>
+    obtain ⟨h1, h2, h3, h4, h5, h6⟩ := ht
+    cases v <;> simp [PyVal.isNumber] at hv <;> cases kt <;>
+      simp [classifyKeySize, PyVal.isNumber, h1, h2, h3, h4, h5, h6, KeyType.name, pyLtCfg, bind, Except.bind,
+        pure, Except.pure] <;>
+      (repeat' split) <;> simp
 
 /-! ## AST builders for the kernel-checked witnesses -/
 
@@ -300,7 +317,7 @@ def callEnv (callee : List String) (args : List Node) (kws : List (String × Nod
 def setOfEmptyList : Node :=
   .mk "Set".toList wpos [] [("elts".toList, true, [.mk "List".toList wpos [] [("elts".toList, true, [])]])]
 
-theorem literalValue_setOfEmptyList : literalValue setOfEmptyList = .error .typeError := by
+theorem literalValue_setOfEmptyList : literalValue setOfEmptyList = .ok .none := by
   have h1 : literalValue.litList [("elts".toList, true, [Node.mk "List".toList wpos [] [("elts".toList, true, [])]])]
       = .ok [.list []] := rfl
   unfold setOfEmptyList
